@@ -149,7 +149,8 @@ func runPluginInstall() int {
 		srcModes := map[string]os.FileMode{}
 		candMode := []os.FileMode{0755, 0700, 0777, 0750, 0711}[mix(*flagSeed, c.ID, "cmode")%5]
 		if in.Src.Cand == "nonexec" {
-			candMode = []os.FileMode{0644, 0600, 0666}[mix(*flagSeed, c.ID, "cmode")%3]
+			// (not executable = the OWNER's bit is clear, whatever group and others may do)
+			candMode = []os.FileMode{0644, 0600, 0666, 0610, 0654, 0611}[mix(*flagSeed, c.ID, "cmode")%6]
 		}
 		srcModes["executable"] = candMode
 		if in.Src.Cand != "none" && in.Src.Cand != "misnamed" && in.Src.Cand != "linkOnly" {
